@@ -92,7 +92,7 @@ class Snapshot(Val):
 
 
 class Emit(Contract):
-    props = ('C03',)
+    props = ('C03', 'C08')      # C08: another thread may add / remove a hook while this request runs its hooks
     file = 'ombott/ombott.py'
     qualname = 'Ombott.emit'
     assumptions = ('a comprehension / loop over a copy of a list visits the items the list had when the copy was taken, in order, '
